@@ -34,9 +34,16 @@ struct Case {
 
 struct Repo {
     files: Vec<(String, String)>,
-    /// Codes expected without any flag (one diagnostic each).
+    /// Codes expected without any flag (one diagnostic each), with their severity.
     codes: Vec<&'static str>,
+    severities: Vec<u64>,
     nonce: String,
+}
+
+/// Blocks holding keep-unique or line-count carry `severity="warning"`, so that the status is
+/// decided by *which* diagnostics remain.
+fn is_warning_block(validators: &[usize]) -> bool {
+    validators.iter().any(|v| *v == 2 || *v == 4)
 }
 
 fn build(kit: &c18::Kit, mask: u8, layout: u8) -> Repo {
@@ -56,18 +63,17 @@ fn build(kit: &c18::Kit, mask: u8, layout: u8) -> Repo {
     let content = "b = 1\na = 1\na = 1\nzz = 1!";
     let present: Vec<usize> = (0..7).filter(|v| mask & (1 << v) != 0).collect();
     let mut blocks: Vec<String> = Vec::new();
-    match layout {
-        2 => {
-            for pair in present.chunks(2) {
-                let attrs: Vec<String> = pair.iter().map(|&v| attrs_of(v)).collect();
-                blocks.push(format!("# <block {}>\n{content}\n# </block>\npad = 0\n", attrs.join(" ")));
+    let mut severity_of = vec![1u64; 7];
+    let groups: Vec<Vec<usize>> = if layout == 2 { present.chunks(2).map(|c| c.to_vec()).collect() } else { present.iter().map(|&v| vec![v]).collect() };
+    for group in &groups {
+        let mut attrs: Vec<String> = group.iter().map(|&v| attrs_of(v)).collect();
+        if is_warning_block(group) {
+            attrs.push("severity=\"warning\"".to_string());
+            for &v in group {
+                severity_of[v] = 2;
             }
         }
-        _ => {
-            for &v in &present {
-                blocks.push(format!("# <block {}>\n{content}\n# </block>\npad = 0\n", attrs_of(v)));
-            }
-        }
+        blocks.push(format!("# <block {}>\n{content}\n# </block>\npad = 0\n", attrs.join(" ")));
     }
     let files = match layout {
         1 => {
@@ -78,7 +84,7 @@ fn build(kit: &c18::Kit, mask: u8, layout: u8) -> Repo {
         }
         _ => vec![("x.py".to_string(), blocks.concat())].into_iter().filter(|f: &(String, String)| !f.1.is_empty()).collect(),
     };
-    Repo { files, codes: present.iter().map(|&v| VALIDATORS[v]).collect(), nonce }
+    Repo { files, codes: present.iter().map(|&v| VALIDATORS[v]).collect(), severities: present.iter().map(|&v| severity_of[v]).collect(), nonce }
 }
 
 fn check_case(case: &Case, sink: &Sink) {
@@ -128,8 +134,9 @@ fn check_case(case: &Case, sink: &Sink) {
                         let kind = if !lost.is_empty() { format!("diagnostic-lost:{}", lost[0]) } else { format!("diagnostic-not-removed:{}", extra.first().map(|s| **s).unwrap_or("duplicate")) };
                         sink.fail(format!("C14:{kind}:{}", if case.enable { "enable" } else { "disable" }), describe(&format!("expected codes {expected:?}, got {got:?}")), input_json.clone());
                     }
-                    if (outcome.exit_status() == 1) != !expected.is_empty() {
-                        sink.fail("C14:status", describe(&format!("exit status {} with expected codes {expected:?}", outcome.exit_status())), input_json.clone());
+                    let error_remains = repo.codes.iter().zip(&repo.severities).any(|(c, s)| *s == 1 && expected.contains(c));
+                    if (outcome.exit_status() == 1) != error_remains {
+                        sink.fail("C14:status", describe(&format!("exit status {} with expected codes {expected:?} (error severity among them: {error_remains})", outcome.exit_status())), input_json.clone());
                     }
                     // No side effects of validators that are switched off.
                     let ai_on = expected.contains(&"check-ai");
@@ -170,6 +177,8 @@ fn cli_slice(cfg: &Cfg, sink: &Sink) -> u64 {
         (vec!["-e", "keep-sorted"], Ok(vec!["keep-sorted"]), "-e one"),
         (vec!["-e", "keep-sorted", "-e", "check-lua"], Ok(vec!["keep-sorted", "check-lua"]), "-e repeated composes as union"),
         (vec!["--enable=line-count", "--enable", "line-count"], Ok(vec!["line-count"]), "-e same twice"),
+        (vec!["-e", "keep-unique", "-e", "line-count"], Ok(vec!["keep-unique", "line-count"]), "-e only warning-severity validators"),
+        (vec!["-d", "keep-sorted", "-d", "line-pattern", "-d", "check-lua"], Ok(vec!["keep-unique", "line-count"]), "-d every error-severity validator"),
         (vec!["-e", "check-ai"], Ok(vec![]), "-e validator without blocks"),
         (vec!["-d", "affects", "-d", "check-ai"], Ok(all.to_vec()), "-d validators without blocks"),
         (vec!["-e", "keep-sorted", "-d", "line-count"], Err(()), "both flags"),
@@ -200,7 +209,8 @@ fn cli_slice(cfg: &Cfg, sink: &Sink) -> u64 {
                         let mut got: Vec<&str> = diags.iter().map(|d| d.code.as_str()).collect();
                         got.sort();
                         sink.outcome(format!("cli:{}", if got == want_codes { "agree" } else { "differ" }));
-                        if got != want_codes || run.code != Some(if want_codes.is_empty() { 0 } else { 1 }) {
+                        let error_remains = want_codes.iter().any(|c| *c != "keep-unique" && *c != "line-count");
+                        if got != want_codes || run.code != Some(if error_remains { 1 } else { 0 }) {
                             sink.fail(format!("C14:cli:wrong-selection:{what}"), format!("{what}: expected {want_codes:?}, got {got:?}, status {:?}", run.code), input.clone());
                         }
                         if calls != usize::from(want_codes.contains(&"check-lua")) {
@@ -228,7 +238,7 @@ pub fn run(cfg: &Cfg, sink: &Arc<Sink>) -> Report {
         std::env::set_var("BLOCKWATCH_AI_API_URL", &FakeAi::global().url);
         std::env::set_var("BLOCKWATCH_AI_API_KEY", "k");
     }
-    let mut report = Report::new("cases = (subset of the seven validators that have a violating block: all 128) × layout {one block per validator in one file, the same blocks reversed over two files, two rules per block} × flag {--disable, --enable} × flag set (quick: every subset of size ≤2 and every complement of size ≤1, all 128 subsets on the repository where all seven validators fire; thorough: all 128 everywhere) × every block-map order; AI blocks talk to a recording fake endpoint, Lua blocks log their calls; oracle: the diagnostic codes equal the unrestricted codes minus (-d) / restricted to (-e) the named validators, the status follows what remains, and a switched-off validator makes no AI request and no Lua call; plus 17 flag spellings through the real CLI (repetition = union, both flags / unknown / padded / comma names rejected before anything is validated); non-trivial = every case with at least one block");
+    let mut report = Report::new("cases = (subset of the seven validators that have a violating block: all 128) × layout {one block per validator in one file, the same blocks reversed over two files, two rules per block} × flag {--disable, --enable} × flag set (quick: every subset of size ≤2 and every complement of size ≤1, all 128 subsets on the repository where all seven validators fire; thorough: all 128 everywhere) × every block-map order; AI blocks talk to a recording fake endpoint, Lua blocks log their calls; oracle: the diagnostic codes equal the unrestricted codes minus (-d) / restricted to (-e) the named validators, the status follows what remains, and a switched-off validator makes no AI request and no Lua call; plus 19 flag spellings through the real CLI (repetition = union, both flags / unknown / padded / comma names rejected before anything is validated); non-trivial = every case with at least one block");
     report.assume("which validator fires on which block is fixed by construction");
     let thorough = cfg.tier == crate::core::Tier::Thorough;
     let mut cases = Vec::new();
@@ -251,7 +261,7 @@ pub fn run(cfg: &Cfg, sink: &Arc<Sink>) -> Report {
         report.cap("quick: flag sets of size 3–5 only on the repository where all seven validators fire");
     }
     let n = cli_slice(cfg, sink);
-    report.phase(Phase { name: "flag spellings through the real CLI".into(), states: n, transitions: n, max_depth: 1, exhaustive: true, bound: "17 flag spellings".into() });
+    report.phase(Phase { name: "flag spellings through the real CLI".into(), states: n, transitions: n, max_depth: 1, exhaustive: true, bound: "19 flag spellings".into() });
     report
 }
 
